@@ -3,9 +3,9 @@ package main
 // Boundary IDs and the listing (C09: "listing yields exactly the stored IDs").
 // Message IDs are UUIDs; the nil UUID and the all-ff UUID are IDs like any other, and IDs may differ in a single bit.
 // With only store-written files in the directory the oracle demands List = stored IDs (as a multiset).  With other files
-// present (names that are no IDs, an upper-case spelling of a stored ID, a file in a sub-directory) the property does not
-// say what List must do: the behaviour is recorded and compared with the model (Run/RunC09 KListing: one entry per
-// regular file, the zero ID for a name that is no ID).
+// present (names that are no IDs, an upper-case spelling of a stored ID, a file in a sub-directory) List must at least not
+// invent IDs (a name that is no ID must not be listed as the nil UUID: C09-fix-3); the rest of the behaviour is recorded and
+// compared with the model (Run/RunC09 KListing).
 
 import (
 	"bytes"
@@ -160,6 +160,17 @@ func (x *h) listings() error {
 						listedZero++
 					}
 				}
+			}
+			// whatever List does with files that are not the store's, it must not invent IDs: every listed ID is the
+			// name of a file of the directory (the nil UUID only if it is stored)
+			wantZero := 0
+			if zeroStored {
+				wantZero = 1
+			}
+			if lerr == nil && listedZero > wantZero {
+				res.Fail(canon+" result=foreign-file-listed-as-nil-id",
+					fmt.Sprintf("the directory holds %d store files and the foreign file %q: List yields the nil UUID %d time(s) although it is stored %d time(s) (cleanupStaleStoreData then tries to delete it and gives up)", stored, s.name, listedZero, wantZero),
+					map[string]interface{}{"foreign_file": s.name, "listed": sortedIDs(l)})
 			}
 			caseNo++
 			res.Evaluations++
